@@ -21,7 +21,7 @@ use sozu_command::{
 use crate::metrics::names;
 use crate::{
     protocol::{http::editor::HeaderEditMode, http::parser::Method},
-    router::pattern_trie::{TrieMatches, TrieNode, TrieSubMatch},
+    router::pattern_trie::{InsertResult, TrieMatches, TrieNode, TrieSubMatch},
     sozu_command::logging::ansi_palette,
 };
 
@@ -346,10 +346,14 @@ impl Router {
                     // domain. Ungated `let` (read only inside the gated
                     // assert) → dropped by the optimizer in release.
                     let inserted_host = hostname.clone().into_bytes();
-                    self.tree.domain_insert(
+                    if self.tree.domain_insert(
                         hostname.into_bytes(),
                         vec![(path.to_owned(), method.to_owned(), cluster.to_owned())],
-                    );
+                    ) == InsertResult::Failed
+                    {
+                        // the hostname cannot be stored in the trie
+                        return false;
+                    }
                     // A fresh domain must now be reachable, carrying the
                     // single rule just inserted. Use `domain_lookup_mut`
                     // (not the immutable `domain_lookup`): only the `_mut`
